@@ -32,6 +32,32 @@ type kcase struct {
 	ts      int64
 	marker  string
 	sel     int // per-case random selector (same for hostile and twin)
+	// hdrs are representation-selecting request headers (Accept, X-Requested-With, Content-Type, Accept-Charset,
+	// Accept-Language ...) added to the hostile and the benign request alike; a header the position already sets wins
+	hdrs [][2]string
+}
+
+// with adds the case's representation-selecting headers to a request (never replacing a header the position set itself).
+func (k *kcase) with(rq sut.Req) sut.Req {
+	if len(k.hdrs) == 0 {
+		return rq
+	}
+	out := make([][2]string, 0, len(rq.Headers)+len(k.hdrs))
+	out = append(out, rq.Headers...)
+	for _, h := range k.hdrs {
+		dup := false
+		for _, e := range rq.Headers {
+			if strings.EqualFold(e[0], h[0]) {
+				dup = true
+				break
+			}
+		}
+		if !dup {
+			out = append(out, h)
+		}
+	}
+	rq.Headers = out
+	return rq
 }
 
 // position is one request-controlled place whose text can reach (or must not reach) a rendered page.
@@ -42,6 +68,9 @@ type position struct {
 	reflects bool   // the statement's universe says the text reaches a template here
 	variants []string
 	jsonable bool
+	// repOnly positions are driven by the representation stream (c20rep) only, so that the case list of stream c20
+	// stays what it was before they were added
+	repOnly bool
 	// prep adapts the generated payload to the position's wire constraints (identity when nil)
 	prep func(r *rand.Rand, p, marker string) string
 	// twin builds the benign counterpart (neutral when nil)
@@ -72,7 +101,7 @@ func do(cl *sut.Client, k *kcase, rq sut.Req) *sut.Resp {
 	if strings.Contains(k.variant, "rawquery") {
 		rq.Raw = true
 	}
-	return cl.Do(rq)
+	return cl.Do(k.with(rq))
 }
 
 var badEscapes = []string{"%<a", "%<b", "%<i", "%<p", "%</", "%<!", "%'x", "%>x", "%<s", "%`x", "%<?", "%={", "%a<", "%0<"}
@@ -271,7 +300,7 @@ func allPositions() []*position {
 			switch k.variant {
 			case "POST-form", "PUT-form":
 				h = append(h, [2]string{"Content-Type", formCT})
-				return c.ps.Client.Do(sut.Req{Method: strings.TrimSuffix(k.variant, "-form"), Host: appHost, Target: "/oauth2/callback?state=s", Headers: h, Body: []byte("code=c&error=" + pct(p))}), nil
+				return c.ps.Client.Do(k.with(sut.Req{Method: strings.TrimSuffix(k.variant, "-form"), Host: appHost, Target: "/oauth2/callback?state=s", Headers: h, Body: []byte("code=c&error=" + pct(p))})), nil
 			}
 			return do(c.ps.Client, k, sut.Req{Host: appHost, Target: "/oauth2/callback?error=" + enc(k, p) + "&state=s&code=c", Headers: h}), nil
 		},
@@ -283,16 +312,16 @@ func allPositions() []*position {
 			h := jsonHdr("proxy", k.json)
 			if k.variant == "POST-form" {
 				h = append(h, [2]string{"Content-Type", formCT})
-				return c.ps.Client.Do(sut.Req{Method: "POST", Host: appHost, Target: "/oauth2/callback", Headers: h, Body: []byte("error=x&y=" + p)}), []string{p}
+				return c.ps.Client.Do(k.with(sut.Req{Method: "POST", Host: appHost, Target: "/oauth2/callback", Headers: h, Body: []byte("error=x&y=" + p)})), []string{p}
 			}
-			return c.ps.Client.Do(sut.Req{Host: appHost, Target: "/oauth2/callback?error=x&y=" + p, Headers: h, Raw: true}), []string{p}
+			return c.ps.Client.Do(k.with(sut.Req{Host: appHost, Target: "/oauth2/callback?error=x&y=" + p, Headers: h, Raw: true})), []string{p}
 		},
 	})
 	add(&position{
 		name: "proxy.callback.code_state", group: "not-reflected", stack: "proxy", jsonable: true,
 		variants: []string{"GET"},
 		run: func(c *ctx, k *kcase, p string) (*sut.Resp, []string) {
-			return c.ps.Client.Do(sut.Req{Host: appHost, Target: "/oauth2/callback?code=" + pct(p) + "&state=" + pct(p), Headers: jsonHdr("proxy", k.json)}), nil
+			return c.ps.Client.Do(k.with(sut.Req{Host: appHost, Target: "/oauth2/callback?code=" + pct(p) + "&state=" + pct(p), Headers: jsonHdr("proxy", k.json)})), nil
 		},
 	})
 	add(&position{
@@ -300,8 +329,8 @@ func allPositions() []*position {
 		variants: []string{"GET", "POST"},
 		run: func(c *ctx, k *kcase, p string) (*sut.Resp, []string) {
 			s := c.ps.Session(appHost, p+denyEmail, nil)
-			return c.ps.Client.Do(sut.Req{Method: k.variant, Host: appHost, Target: "/x/" + pct(p) + "?q=" + pct(p), Headers: jsonHdr("proxy", k.json),
-				Cookies: []string{c.ps.CookieName + "=" + c.ps.Seal(s)}}), nil
+			return c.ps.Client.Do(k.with(sut.Req{Method: k.variant, Host: appHost, Target: "/x/" + pct(p) + "?q=" + pct(p), Headers: jsonHdr("proxy", k.json),
+				Cookies: []string{c.ps.CookieName + "=" + c.ps.Seal(s)}})), nil
 		},
 	})
 	add(&position{
@@ -319,8 +348,8 @@ func allPositions() []*position {
 				c.ps.Auth.Unset("refresh", s.RefreshToken)
 				c.ps.Auth.Calls("refresh", s.RefreshToken)
 			}()
-			return c.ps.Client.Do(sut.Req{Host: appHost, Target: "/y?q=" + pct(p), Headers: jsonHdr("proxy", k.json),
-				Cookies: []string{c.ps.CookieName + "=" + c.ps.Seal(s)}}), nil
+			return c.ps.Client.Do(k.with(sut.Req{Host: appHost, Target: "/y?q=" + pct(p), Headers: jsonHdr("proxy", k.json),
+				Cookies: []string{c.ps.CookieName + "=" + c.ps.Seal(s)}})), nil
 		},
 	})
 	add(&position{
@@ -340,7 +369,7 @@ func allPositions() []*position {
 					return r
 				}, p) + rwSuffix
 			}
-			return c.ps.Client.Do(sut.Req{Host: host, Target: target, Headers: jsonHdr("proxy", k.json), Raw: true}), nil
+			return c.ps.Client.Do(k.with(sut.Req{Host: host, Target: target, Headers: jsonHdr("proxy", k.json), Raw: true})), nil
 		},
 	})
 
@@ -357,7 +386,7 @@ func allPositions() []*position {
 		variants: []string{"callback", "sign_in", "start", "redeem", "refresh", "profile", "validate", "sign_out"},
 		prep:     func(r *rand.Rand, p, m string) string { return tokenOnly(p) },
 		run: func(c *ctx, k *kcase, p string) (*sut.Resp, []string) {
-			return c.as.Client.Do(sut.Req{Method: p, Host: c.as.Host, Target: c.as.Path(k.variant) + "?client_id=" + pct(c.as.ClientID), Headers: jsonHdr("auth", k.json), Raw: true}), nil
+			return c.as.Client.Do(k.with(sut.Req{Method: p, Host: c.as.Host, Target: c.as.Path(k.variant) + "?client_id=" + pct(c.as.ClientID), Headers: jsonHdr("auth", k.json), Raw: true})), nil
 		},
 	})
 	add(&position{
@@ -372,7 +401,7 @@ func allPositions() []*position {
 			}, p)
 		},
 		run: func(c *ctx, k *kcase, p string) (*sut.Resp, []string) {
-			return c.as.Client.Do(sut.Req{Method: p, Host: c.as.Host, Target: c.as.Path(k.variant), Headers: jsonHdr("auth", k.json), Raw: true}), nil
+			return c.as.Client.Do(k.with(sut.Req{Method: p, Host: c.as.Host, Target: c.as.Path(k.variant), Headers: jsonHdr("auth", k.json), Raw: true})), nil
 		},
 	})
 	for _, sub := range []string{"ru.path", "ru.query", "ru.fragment", "ru.userinfo", "ru.hostlabel", "ru.scheme", "state", "extra"} {
@@ -398,9 +427,9 @@ func allPositions() []*position {
 			switch k.variant {
 			case "sign_out-body":
 				h = append(h, [2]string{"Content-Type", formCT})
-				return c.as.Client.Do(sut.Req{Method: "POST", Host: c.as.Host, Target: c.as.Path("sign_out"), Headers: h, Body: []byte("redirect_uri=x&y=" + p)}), []string{p}
+				return c.as.Client.Do(k.with(sut.Req{Method: "POST", Host: c.as.Host, Target: c.as.Path("sign_out"), Headers: h, Body: []byte("redirect_uri=x&y=" + p)})), []string{p}
 			}
-			return c.as.Client.Do(sut.Req{Host: c.as.Host, Target: c.as.Path(k.variant) + "?client_id=" + pct(c.as.ClientID) + "&y=" + p, Headers: h, Raw: true}), []string{p}
+			return c.as.Client.Do(k.with(sut.Req{Host: c.as.Host, Target: c.as.Path(k.variant) + "?client_id=" + pct(c.as.ClientID) + "&y=" + p, Headers: h, Raw: true})), []string{p}
 		},
 	})
 	add(&position{
@@ -411,7 +440,7 @@ func allPositions() []*position {
 			c.as.IdP.Set("refresh", key, sut.Answer{Status: 200, Body: p})
 			defer func() { c.as.IdP.Unset("refresh", key); c.as.IdP.Calls("refresh", key) }()
 			h := append(jsonHdr("auth", k.json), [2]string{"Content-Type", formCT})
-			return c.as.Client.Do(sut.Req{Method: "POST", Host: c.as.Host, Target: c.as.Path("refresh"), Headers: h, Body: []byte(clientForm(c, "refresh_token", key))}), []string{"invalid character", "cannot unmarshal", "unexpected end of JSON"}
+			return c.as.Client.Do(k.with(sut.Req{Method: "POST", Host: c.as.Host, Target: c.as.Path("refresh"), Headers: h, Body: []byte(clientForm(c, "refresh_token", key))})), []string{"invalid character", "cannot unmarshal", "unexpected end of JSON"}
 		},
 	})
 	add(&position{
@@ -422,7 +451,7 @@ func allPositions() []*position {
 			c.as.IdP.Set("userinfo", key, sut.Answer{Status: 200, Body: p})
 			defer func() { c.as.IdP.Unset("userinfo", key); c.as.IdP.Calls("userinfo", key) }()
 			h := append(jsonHdr("auth", k.json), [2]string{"X-Client-Secret", c.as.ClientSecret}, [2]string{"X-Access-Token", key})
-			return c.as.Client.Do(sut.Req{Host: c.as.Host, Target: c.as.Path("profile") + "?client_id=" + pct(c.as.ClientID) + "&email=" + pct(key+"@corp.test") + "&groups=g1", Headers: h}), []string{"invalid character", "cannot unmarshal", "unexpected end of JSON"}
+			return c.as.Client.Do(k.with(sut.Req{Host: c.as.Host, Target: c.as.Path("profile") + "?client_id=" + pct(c.as.ClientID) + "&email=" + pct(key+"@corp.test") + "&groups=g1", Headers: h})), []string{"invalid character", "cannot unmarshal", "unexpected end of JSON"}
 		},
 	})
 
@@ -435,7 +464,7 @@ func allPositions() []*position {
 			c.da.Prov.Script(key, p)
 			defer c.da.Prov.Unscript(key)
 			h := append(jsonHdr("auth", k.json), [2]string{"Content-Type", formCT})
-			return c.da.Client.Do(sut.Req{Method: "POST", Host: c.da.Host, Target: c.da.Path("refresh"), Headers: h, Body: []byte(clientForm(c, "refresh_token", key))}), nil
+			return c.da.Client.Do(k.with(sut.Req{Method: "POST", Host: c.da.Host, Target: c.da.Path("refresh"), Headers: h, Body: []byte(clientForm(c, "refresh_token", key))})), nil
 		},
 	})
 	add(&position{
@@ -446,7 +475,7 @@ func allPositions() []*position {
 			c.da.Prov.Script(key, p)
 			defer c.da.Prov.Unscript(key)
 			h := append(jsonHdr("auth", k.json), [2]string{"X-Client-Secret", c.as.ClientSecret}, [2]string{"X-Access-Token", key})
-			return c.da.Client.Do(sut.Req{Host: c.da.Host, Target: c.da.Path("profile") + "?client_id=" + pct(c.as.ClientID) + "&email=a%40corp.test&groups=g1", Headers: h}), nil
+			return c.da.Client.Do(k.with(sut.Req{Host: c.da.Host, Target: c.da.Path("profile") + "?client_id=" + pct(c.as.ClientID) + "&email=a%40corp.test&groups=g1", Headers: h})), nil
 		},
 	})
 	add(&position{
@@ -458,8 +487,8 @@ func allPositions() []*position {
 			c.da.Prov.Script(s.RefreshToken, p)
 			defer c.da.Prov.Unscript(s.RefreshToken)
 			q := signedQuery(c, k, ruBase, "st4te", "", "", true)
-			return c.da.Client.Do(sut.Req{Host: c.da.Host, Target: c.da.Path("sign_in") + "?" + q, Headers: jsonHdr("auth", k.json),
-				Cookies: []string{c.da.CookieName + "=" + c.as.SealCookie(s)}}), nil
+			return c.da.Client.Do(k.with(sut.Req{Host: c.da.Host, Target: c.da.Path("sign_in") + "?" + q, Headers: jsonHdr("auth", k.json),
+				Cookies: []string{c.da.CookieName + "=" + c.as.SealCookie(s)}})), nil
 		},
 	})
 	add(&position{
@@ -470,9 +499,9 @@ func allPositions() []*position {
 			switch k.variant {
 			case "sign_out-body":
 				h = append(h, [2]string{"Content-Type", formCT})
-				return c.da.Client.Do(sut.Req{Method: "POST", Host: c.da.Host, Target: c.da.Path("sign_out"), Headers: h, Body: []byte("redirect_uri=x&y=" + p)}), []string{p}
+				return c.da.Client.Do(k.with(sut.Req{Method: "POST", Host: c.da.Host, Target: c.da.Path("sign_out"), Headers: h, Body: []byte("redirect_uri=x&y=" + p)})), []string{p}
 			}
-			return c.da.Client.Do(sut.Req{Host: c.da.Host, Target: c.da.Path(k.variant) + "?client_id=" + pct(c.as.ClientID) + "&y=" + p, Headers: h, Raw: true}), []string{p}
+			return c.da.Client.Do(k.with(sut.Req{Host: c.da.Host, Target: c.da.Path(k.variant) + "?client_id=" + pct(c.as.ClientID) + "&y=" + p, Headers: h, Raw: true})), []string{p}
 		},
 	})
 	add(&position{
@@ -482,8 +511,112 @@ func allPositions() []*position {
 			key := "code-" + sut.NewID()
 			c.da.Prov.Script(key, p)
 			defer c.da.Prov.Unscript(key)
-			return c.da.Client.Do(sut.Req{Host: c.da.Host, Target: c.da.Path("callback") + "?code=" + key + "&state=" + pct(p), Headers: jsonHdr("auth", k.json)}), nil
+			return c.da.Client.Do(k.with(sut.Req{Host: c.da.Host, Target: c.da.Path("callback") + "?code=" + key + "&state=" + pct(p), Headers: jsonHdr("auth", k.json)})), nil
+		},
+	})
+	// ------------------------------------------------------------------ request headers as positions (the text of a
+	// representation-selecting or descriptive header is request-controlled like any parameter), and the remaining endpoints
+	add(&position{
+		name: "proxy.reqheader", repOnly: true, group: "request-header-value", stack: "proxy", jsonable: true,
+		variants: reqHeaderNames, prep: prepHeaderValue, twin: twinHeaderValue,
+		run: func(c *ctx, k *kcase, p string) (*sut.Resp, []string) {
+			h := append([][2]string{{k.variant, p}}, jsonHdr("proxy", k.json)...)
+			target := "/oauth2/callback?error=denied&state=s"
+			if k.sel%3 == 0 {
+				target = "/start/here?x=1"
+			}
+			return c.ps.Client.Do(k.with(sut.Req{Host: appHost, Target: target, Headers: h, Raw: true})), nil
+		},
+	})
+	add(&position{
+		name: "auth.reqheader.errorpage", repOnly: true, group: "request-header-value", stack: "auth", jsonable: true,
+		variants: reqHeaderNames, prep: prepHeaderValue, twin: twinHeaderValue,
+		run: func(c *ctx, k *kcase, p string) (*sut.Resp, []string) {
+			h := append([][2]string{{k.variant, p}}, jsonHdr("auth", k.json)...)
+			method, target := "GET", c.as.Path("callback")+"?error=denied&state=x"
+			switch k.sel % 3 {
+			case 1:
+				method = "POST" // 405 page
+			case 2:
+				target = c.as.Path("sign_in") + "?client_id=" + pct(c.as.ClientID) // 400 page (no redirect_uri)
+			}
+			return c.as.Client.Do(k.with(sut.Req{Method: method, Host: c.as.Host, Target: target, Headers: h, Raw: true})), nil
+		},
+	})
+	add(&position{
+		name: "auth.reqheader.signin", repOnly: true, group: "request-header-value", stack: "auth",
+		variants: reqHeaderNames, prep: prepHeaderValue, twin: twinHeaderValue,
+		run: func(c *ctx, k *kcase, p string) (*sut.Resp, []string) {
+			q := signedQuery(c, k, ruBase, "st4te", "", "", true)
+			return c.as.Client.Do(k.with(sut.Req{Host: c.as.Host, Target: c.as.Path("sign_in") + "?" + q, Headers: [][2]string{{k.variant, p}}, Raw: true})), nil
+		},
+	})
+	add(&position{
+		name: "proxy.endpoints", repOnly: true, group: "not-reflected", stack: "proxy", jsonable: true,
+		variants: []string{"/oauth2/sign_out", "/oauth2/auth", "/oauth2/v1/certs", "/robots.txt", "/favicon.ico", "/ping", "/oauth2/callback", "/oauth2/nope"},
+		run: func(c *ctx, k *kcase, p string) (*sut.Resp, []string) {
+			return do(c.ps.Client, k, sut.Req{Host: appHost, Target: k.variant + "?redirect_uri=" + pct(p) + "&x=" + pct(p), Headers: jsonHdr("proxy", k.json)}), nil
+		},
+	})
+	add(&position{
+		name: "auth.endpoints", repOnly: true, group: "not-reflected", stack: "auth", jsonable: true,
+		variants: []string{"robots.txt", "ping", "static", "nope", "slug-nope", "other-host", "redeem", "validate", "profile"},
+		run: func(c *ctx, k *kcase, p string) (*sut.Resp, []string) {
+			h := jsonHdr("auth", k.json)
+			rq := sut.Req{Host: c.as.Host, Headers: h}
+			switch k.variant {
+			case "robots.txt", "ping", "nope":
+				rq.Target = "/" + k.variant + "?x=" + pct(p)
+			case "static":
+				rq.Target = "/static/" + pct(p) + "?x=" + pct(p)
+			case "slug-nope":
+				rq.Target = c.as.Path("nope") + "/" + pct(p) + "?x=" + pct(p)
+			case "other-host":
+				rq.Host, rq.Target = hostSafe(p)+".other.test", c.as.Path("callback")+"?error="+pct(p)
+				rq.Raw = true
+			case "redeem":
+				rq.Method, rq.Target = "POST", c.as.Path("redeem")
+				rq.Headers = append(append([][2]string{}, h...), [2]string{"Content-Type", formCT})
+				rq.Body = []byte(clientForm(c, "code", p))
+			case "validate":
+				rq.Target = c.as.Path("validate") + "?client_id=" + pct(c.as.ClientID)
+				rq.Headers = append(append([][2]string{}, h...), [2]string{"X-Client-Secret", c.as.ClientSecret}, [2]string{"X-Access-Token", headerValueSafe(p)})
+				rq.Raw = true
+			case "profile":
+				rq.Target = c.as.Path("profile") + "?client_id=" + pct(c.as.ClientID) + "&groups=" + pct(p)
+				rq.Headers = append(append([][2]string{}, h...), [2]string{"X-Client-Secret", c.as.ClientSecret})
+			}
+			return c.as.Client.Do(k.with(rq)), nil
 		},
 	})
 	return ps
 }
+
+// reqHeaderNames are the request headers whose VALUE is driven as a payload position.
+var reqHeaderNames = []string{"Accept", "Accept-Language", "Accept-Charset", "Accept-Encoding", "X-Requested-With", "Content-Type",
+	"User-Agent", "Referer", "Origin", "X-Forwarded-For", "X-Forwarded-Host", "X-Real-Ip", "X-Request-Id"}
+
+// headerValueSafe keeps the bytes Go's server accepts inside a header field value (no C0 controls except TAB, no DEL)
+// and trims the optional white space a parser would strip anyway.
+func headerValueSafe(s string) string {
+	b := make([]byte, 0, len(s))
+	for i := 0; i < len(s); i++ {
+		if c := s[i]; (c >= 0x20 && c != 0x7f) || c == '\t' {
+			b = append(b, c)
+		}
+	}
+	return strings.Trim(string(b), " \t")
+}
+
+func prepHeaderValue(r *rand.Rand, p, m string) string {
+	p = headerValueSafe(p)
+	if len(p) > 4000 {
+		// stay below the server's header size limit: keep both ends (the marker sits at one of them for the long class)
+		p = p[:2000] + p[len(p)-2000:]
+	}
+	return p
+}
+
+// twinHeaderValue is neutral() for a header field value: the 0x01 that neutral writes for TAB is not legal there
+// (Go's server would answer 400 before any handler ran), so it becomes a letter as well.
+func twinHeaderValue(p string) string { return strings.Replace(neutral(p), "\x01", "a", -1) }
